@@ -221,7 +221,8 @@ class Recorder:
         with self.lock:
             self.log.append(ev)
 
-    def instrumentation(self):
+    def instrumentation(self, extra=()):
+        """extra: further Instrumentation objects stacked AFTER the recording ones (they emit no events of their own)."""
         from py_gql.execution import Instrumentation, MultiInstrumentation
         rec = self
 
@@ -258,6 +259,8 @@ class Recorder:
 
             def on_field_end(self, root, context, info):
                 rec.emit(e="fe", i=self.i, p="/".join(map(str, info.path)))
+        if extra:
+            return MultiInstrumentation(*([I(i) for i in range(1, self.ninstr + 1)] + list(extra)))
         if self.ninstr == 0:
             return None
         if self.ninstr == 1:
@@ -271,6 +274,8 @@ class Recorder:
             def mw(next_, root, ctx, info, **kw):
                 p = "/".join(map(str, info.path))
                 rec.emit(e="mwin", m=m, p=p)
+                if m == 1 and info.field_definition.name.startswith("__"):
+                    rec.emit(e="res", p=p)      # meta fields have built-in resolvers: the innermost middleware calling on stands for it
                 try:
                     return next_(root, ctx, info, **kw)
                 finally:
